@@ -35,7 +35,8 @@ concrete instance.
 
 The code is modelled **after** the fixes of branch `fix-g5`:
 topk/boltzmann return rows of the untransformed sample; qLCB records its batch and masks chosen
-candidates; a `free` result that is already in `sampled` falls back on the best candidate;
+candidates; a `free` result that is already in `sampled` falls back on the best candidate; the random points
+completing a batch of initial points are filtered against those too;
 `CBO._tell` calls `update_next()` when nothing is told; `CBO._ask` calls `update_next()` when it
 is called again before any tell.  `Pre` variants of the two C08 paths
 (as on the pinned tree) are kept at the end for the regression witnesses.
@@ -240,11 +241,13 @@ def askOne (s : Opt α) (cands : List α) : Except Err (Opt α × Sel α) :=
     | none => .error .noModel
     | some x => .ok ({ s with sampled := s.sampled ++ [x] }, ⟨x, s.nextFrom⟩)
 
-/-- initial batch: `_initial_samples[:k] + _ask_random_points(size=n-k)` -/
+/-- initial batch: `_initial_samples[:k] + _ask_random_points(size=n-k)`; the initial points
+(given by the user or pre-computed by a design) are recorded in `sampled` before the random
+points that complete the batch are drawn, so that those also differ from them -/
 def askInitBatch (s : Opt α) (n : Nat) (cands : List α) : Opt α × List (Sel α) :=
   let k := min s.initSamples.length n
   let a := s.initSamples.take k
-  let b := (filterDup s.filterOn s.sampled cands).take (n - k)
+  let b := (filterDup s.filterOn (s.sampled ++ a) cands).take (n - k)
   ({ s with initSamples := s.initSamples.drop k, sampled := s.sampled ++ (a ++ b) },
    a.map (fun x => ⟨x, []⟩) ++ b.map (fun x => ⟨x, cands⟩))
 
@@ -419,6 +422,12 @@ initial design -/
 def Cbo.start (nInit : Int) (dummy : Bool) (strat : Strategy) (ignoreFailures : Bool) : Cbo α :=
   { opt := Opt.init true dummy nInit [], strat, ignoreFailures }
 
+/-- the same with initial points given by the user (`CBO(initial_points=[…])`): they are handed
+out first, the random design completes the initial phase -/
+def Cbo.startInit (nInit : Int) (dummy : Bool) (strat : Strategy) (ignoreFailures : Bool)
+    (init : List α) : Cbo α :=
+  { opt := Opt.init true dummy nInit init, strat, ignoreFailures }
+
 /-- a call of the public ask/tell interface of the search -/
 inductive Op (α τ : Type)
   | ask (n : Nat) (env : AskEnv α τ)
@@ -472,6 +481,16 @@ def askQPre (s : Opt α) (n : Nat) (x0 : α) (cands : List α) (orders : List (L
   match rows f ((orders.take (n - 1)).filterMap List.head?) with
   | .error e => .error e
   | .ok X => .ok (s, ⟨x0, s.nextFrom⟩ :: X.map (fun x => ⟨x, cands⟩))
+
+/-- the initial batch before the fix of wave 3: the random points that complete a batch of
+initial points were filtered against `sampled` only, not against the initial points handed out
+in the same batch -/
+def askInitBatchPre (s : Opt α) (n : Nat) (cands : List α) : Opt α × List (Sel α) :=
+  let k := min s.initSamples.length n
+  let a := s.initSamples.take k
+  let b := (filterDup s.filterOn s.sampled cands).take (n - k)
+  ({ s with initSamples := s.initSamples.drop k, sampled := s.sampled ++ (a ++ b) },
+   a.map (fun x => ⟨x, []⟩) ++ b.map (fun x => ⟨x, cands⟩))
 
 /-- pinned `CBO._tell`: nothing happens when every result is an ignored failure -/
 def cboTellPre (ops : Ops α τ) (c : Cbo α) (results : List (α × Res)) (e : Fit α τ) : Except Err (Cbo α) :=
